@@ -284,9 +284,6 @@ Fixpoint set_nth {A} (l : list A) (n : nat) (x : A) : list A :=
   | y :: r, S k => y :: set_nth r k x
   end.
 
-Definition tag_matches (fp : fparams) (tn : Z) : bool :=
-  match p_tag fp with Some n => n =? tn | None => false end.
-
 (* split bs[off:] into consecutive TLVs (the chunk loop of the slice case) *)
 Fixpoint chunks (fuel : nat) (bs : list Z) (off : Z) : outcome (list (list Z)) :=
   if off >=? zlen bs then Ok [] else
@@ -315,16 +312,40 @@ Definition prim_tag (t : ty) (p : fparams) : option (bool * Z) :=
   | TChoice _ => match p_tag p with Some _ => Some (true, 0) | None => None end
   | _ => None
   end.
-(* class and number: universal, or the context tag of an IMPLICITly tagged member *)
+(* class and number: universal, or the context tag of an IMPLICITly tagged member
+   (identifierMatches) *)
+Definition ident_matches (tl : tal) (k : bool) (w : Z) (p : fparams) : bool :=
+  Bool.eqb (t_constr tl) k &&
+  match p_tag p with
+  | Some n => (t_cls tl =? 2) && (t_num tl =? n)
+  | None => (t_cls tl =? 0) && (t_num tl =? w)
+  end.
 Definition ident_ok (t : ty) (p : fparams) (tl : tal) : bool :=
   match prim_tag t p with
   | None => true
-  | Some (k, w) =>
-    Bool.eqb (t_constr tl) k &&
-    match p_tag p with
-    | Some n => (t_cls tl =? 2) && (t_num tl =? n)
-    | None => (t_cls tl =? 0) && (t_num tl =? w)
-    end
+  | Some (k, w) => ident_matches tl k w p
+  end.
+
+Definition is_choice (t : ty) : bool := match t with TChoice _ => true | _ => false end.
+
+(* startsWith: can an element with identifier [tl] be the encoding of a [t] under [p]?  This is
+   how SEQUENCE, SET and CHOICE find the member an element belongs to: by the context tag when
+   the member has one, by the universal identifier of its type (or of one of the alternatives of
+   an untagged CHOICE) otherwise. *)
+Fixpoint starts (t : ty) (p : fparams) (tl : tal) {struct t} : bool :=
+  match t with
+  | TPtr t' => starts t' p tl
+  | _ =>
+    if (match p_tag p with Some _ => true | None => false end) && (p_explicit p || is_choice t)
+    then ident_matches tl true 0 p
+    else
+      match t with
+      | TWrap t' => starts t' p tl
+      | TChoice alts =>
+        (fix any (l : list (fparams * ty)) : bool :=
+           match l with [] => false | (ap, at') :: r => starts at' ap tl || any r end) alts
+      | _ => match prim_tag t p with Some (k, w) => ident_matches tl k w p | None => false end
+      end
   end.
 
 (* the constructed context-tagged wrapper of an EXPLICITly tagged member *)
@@ -367,7 +388,7 @@ Fixpoint dec (t : ty) (p : fparams) (bs : list Z) {struct t} : outcome value :=
          match l with
          | [] => Err                     (* present stays 0 *)
          | (ap, at') :: l' =>
-           if tag_matches ap (t_num tl1) then
+           if starts at' ap tl1 then
              do v <- dec at' ap rest;
              Ok (VStruct (VInt (Z.of_nat (S k)) ::
                           set_nth (map (fun a => zero (snd a)) alts) k v))
@@ -393,7 +414,7 @@ Fixpoint dec (t : ty) (p : fparams) (bs : list Z) {struct t} : outcome value :=
               | (fp, ft) :: l' =>
                 if Nat.ltb j (if p_set p then O else current) then find l' (S j)
                 else if p_open p then Err
-                else if tag_matches fp (t_num tn) then
+                else if starts ft fp tn then
                   do v <- dec ft fp chunk;
                   loop fk next (S j) (set_nth acc j v)
                 else find l' (S j)
@@ -427,19 +448,19 @@ Fixpoint dec (t : ty) (p : fparams) (bs : list Z) {struct t} : outcome value :=
 Section DecBody.
   Variable rec : ty -> fparams -> list Z -> outcome value.
 
-  Definition choice_pick (alts : list (fparams * ty)) (rest : list Z) (tn : Z) :=
+  Definition choice_pick (alts : list (fparams * ty)) (rest : list Z) (tn : tal) :=
     fix pick (l : list (fparams * ty)) (k : nat) : outcome value :=
       match l with
       | [] => Err
       | (ap, at') :: l' =>
-        if tag_matches ap tn then
+        if starts at' ap tn then
           do v <- rec at' ap rest;
           Ok (VStruct (VInt (Z.of_nat (S k)) ::
                        set_nth (map (fun a => zero (snd a)) alts) k v))
         else pick l' (S k)
       end.
 
-  Definition seq_find (p : fparams) (current : nat) (tn : Z) (chunk : list Z)
+  Definition seq_find (p : fparams) (current : nat) (tn : tal) (chunk : list Z)
              (k : nat -> value -> outcome value) :=
     fix find (l : list (fparams * ty)) (j : nat) : outcome value :=
       match l with
@@ -447,7 +468,7 @@ Section DecBody.
       | (fp, ft) :: l' =>
         if Nat.ltb j (if p_set p then O else current) then find l' (S j)
         else if p_open p then Err
-        else if tag_matches fp tn then
+        else if starts ft fp tn then
           do v <- rec ft fp chunk; k j v
         else find l' (S j)
       end.
@@ -464,7 +485,7 @@ Section DecBody.
         let next := offset + tno + t_len tn in
         if next >? total then Err else
         do chunk <- slice bs offset next;
-        seq_find p current (t_num tn) chunk
+        seq_find p current tn chunk
                  (fun j v => loop fk next (S j) (set_nth acc j v)) fields O
       end.
 
@@ -502,7 +523,7 @@ Section DecBody.
           if toff + toff2 + t_len tl2 >? zlen bs then Err else Ok (tl2, toff)
         end;
       do rest <- slice_from bs offset;
-      choice_pick alts rest (t_num tl1) alts O
+      choice_pick alts rest tl1 alts O
     | TSeq fields =>
       seq_loop fields p bs (zlen bs) (length bs) toff O (map (fun a => zero (snd a)) fields)
     | TSlice t' =>
